@@ -437,6 +437,27 @@ def bounded(ctx, b):
     custom("two_notes_with_a_null_between", [(15, [note, "8080", note] + C.text_words("a" * 31))], ["\u266a\u266a" + "a" * 31])
     custom("two_notes_with_a_null_between_that_fit", [(15, [note, "8080", note] + C.text_words("a" * 30))], [])
     custom("two_notes_with_a_null_between_doubled", [(15, [note, note, "8080", note, note] + C.text_words("a" * 31))], ["\u266a\u266a" + "a" * 31])
+    # italic text that ends in a blank, a mid-row code that closes the italics, more text: ONE row of 15 + 1 + 17 = 33 columns
+    # (the blank before the closing code is in the middle of the row), and of 32 with one letter less
+    custom("blank_before_a_closing_mid_row_code", [(15, [C.midrow(True)] + C.text_words("A" * 15 + " ") + [C.midrow(False)] + C.text_words("B" * 17))],
+           ["A" * 15 + " " + "B" * 17])
+    custom("blank_before_a_closing_mid_row_code_that_fits", [(15, [C.midrow(True)] + C.text_words("A" * 15 + " ") + [C.midrow(False)] + C.text_words("B" * 16))], [])
+    # captions that share a start time without being neighbours in the stream (the timecode of the first line comes again
+    # after a later one), in every order of the long one; and the same streams read under another language label
+    for order in itertools.permutations(["long", "other", "short"]):
+        for lang_ in ("en-US", "de-DE"):
+            def shared_start(order=order, lang_=lang_):
+                rows_ = {"long": (30, ROWS_TEXT[:33]), "other": (150, "SECOND"), "short": (30, "OK")}
+                lines_ = [(C.timecode(rows_[k][0]), [C.ctrl("RDC"), C.pac({"long": 3, "other": 8, "short": 13}[k])] + C.text_words(rows_[k][1])) for k in order]
+                doc = C.scc_document(lines_ + [(C.timecode(400), [C.ctrl("RDC")])])
+                try:
+                    shared.read(doc, lang=lang_)
+                except CaptionLineLengthError as e:
+                    return f"{ROWS_TEXT[:33]} - Length 33" in str(e), {"raised": str(e)[:300]}
+                except Exception as e:
+                    return False, {"raised_instead_of_the_line_length_error": repr(e)[:300]}
+                return False, {"returned_silently": ROWS_TEXT[:33], "order": order, "lang": lang_}
+            b.guard(("shared_start", order, lang_), shared_start, sample={"transmission_order": order, "lang": lang_, "timecodes": "the first line's timecode comes again"})
     for mode in ("pop", "paint"):
         # the styled row repeats the row above up to the mid-row code (5 + 1 + 27 = 33 columns), in both orders of transmission
         for rows in ([(14, "la la"), (15, "la la~_" + "x" * 27)], [(15, "la la~_" + "x" * 27), (14, "la la")],
@@ -457,8 +478,9 @@ def bounded(ctx, b):
             doc = stream(mode, sets, term, cr)
             if dbl:
                 doc = doubled(doc)
+            lang_ = ["en-US", "de-DE", "fr"][len(doc) % 3]          # (the language label the captions are filed under is no part of it)
             try:
-                cs = shared.read(doc)
+                cs = shared.read(doc, lang=lang_)
             except CaptionLineLengthError as e:
                 msg = str(e)
                 named = all(f"{t} - Length {len(t)}" in msg for t in named_exactly)
@@ -467,9 +489,9 @@ def bounded(ctx, b):
                 if not texts:
                     return True, None          # nothing to caption: the no-captions error is fine
                 raise
-            lines = [ln for cap in cs.get_captions("en-US") for ln in cap.get_text().split("\n")]
+            lines = [ln for cap in cs.get_captions(lang_) for ln in cap.get_text().split("\n")]
             too = [ln for ln in lines if len(ln) > 32]
-            return not too and not longs, {"returned_silently": too or longs}
+            return not too and not longs, {"returned_silently": too or longs, "lang": lang_}
         b.guard((mode, term, tuple(tuple(r) for rows in sets for r in rows), len(sets), cr, dbl), one,
                 sample={"mode": mode, "terminated": term, "carriage_returns": cr, "doubled_control_codes": dbl, "row_lengths": [[len(t) for _, t in rows] for rows in sets]},
                 nontrivial=bool(texts))
